@@ -273,7 +273,7 @@ func (ec *evalCtx) evalBuiltin(name string, call *ast.CallExpr) Value {
 	case "delete":
 		lv := ec.lvalue(call.Args[0])
 		m := lv.get().(*MapV)
-		k := scalar(ec.eval(call.Args[1]))
+		k := keyTerm(ec.eval(call.Args[1]))
 		n := *m
 		n.Dom = Store(m.Dom, k, False)
 		lv.set(&n)
@@ -341,9 +341,14 @@ func (ec *evalCtx) applyContract(c *Contract, fn *types.Func, call *ast.CallExpr
 		if sc.havocGhost(m) {
 			continue
 		}
-		mt := e.typeOfSpecExpr(c, m)
 		lv := sc.lvalue(m)
-		nv := e.freshValue(ec.st, stripPkg(c.Name)+"."+c.ModText[mi], mt, false)
+		var nv Value
+		if rootIsCV(m) || c.Iface {
+			nv = e.freshLike(ec.st, lv.get(), stripPkg(c.Name)+"."+c.ModText[mi])
+		} else {
+			mt := e.typeOfSpecExpr(c, m)
+			nv = e.freshValue(ec.st, stripPkg(c.Name)+"."+c.ModText[mi], mt, false)
+		}
 		lv.set(nv)
 		// by-value slice parameter with element writes: the caller's variable changes too
 		if id, ok := m.(*ast.Ident); ok {
@@ -675,4 +680,81 @@ func namedResults(info *types.Info, ft *ast.FuncType) []types.Object {
 		}
 	}
 	return out
+}
+
+func rootIsCV(m ast.Expr) bool {
+	switch x := m.(type) {
+	case *ast.StarExpr:
+		return rootIsCV(x.X)
+	case *ast.SelectorExpr:
+		return rootIsCV(x.X)
+	case *ast.ParenExpr:
+		return rootIsCV(x.X)
+	case *ast.CallExpr:
+		return exprString(x.Fun) == "cv"
+	}
+	return false
+}
+
+// freshLike: an unconstrained value of the same shape as v.
+func (e *Engine) freshLike(st *State, v Value, hint string) Value {
+	nm := e.fresher.name(hint)
+	var rec func(v Value, nm string) Value
+	rec = func(v Value, nm string) Value {
+		switch x := v.(type) {
+		case *Term:
+			return Var(nm, x.Sort)
+		case *StructV:
+			n := &StructV{Names: x.Names, F: map[string]Value{}}
+			for _, f := range x.Names {
+				n.F[f] = rec(x.F[f], nm+"."+f)
+			}
+			return n
+		case *PtrV:
+			if x.Obj < 0 {
+				return &PtrV{Nil: Var(nm+".isnil", SBool), Obj: e.allocObj(st, Var(nm+".opaque", SInt))}
+			}
+			return &PtrV{Nil: Var(nm+".isnil", SBool), Obj: e.allocObj(st, rec(st.heap[x.Obj], nm+".deref"))}
+		case *IfaceV:
+			return e.freshIface(st, nm)
+		case *FuncV:
+			return &FuncV{Name: nm, Id: Var(nm+".fn", SInt)}
+		case *MapV:
+			n := &MapV{Ref: Var(nm+".ref", SInt), Dom: Var(nm+".dom", x.Dom.Sort), Val: map[string]*Term{}, K: x.K, Elem: x.Elem}
+			for k, a := range x.Val {
+				n.Val[k] = Var(nm+".val"+k, a.Sort)
+			}
+			st.Assume(Implies(Eq(n.Ref, Int(0)), Eq(n.Dom, constArray(x.K, SBool, False))))
+			st.Assume(Ge(n.Ref, Int(0)))
+			return n
+		case *SliceV:
+			ln := Var(nm+".len", SInt)
+			st.Assume(Le(Int(0), ln))
+			sample := x
+			return &SliceV{Len: ln, Nil: Var(nm+".isnil", SBool), Name: nm, At: func(i *Term) Value {
+				el := sample.At(i)
+				return likeElem(el, nm+".at", i)
+			}}
+		case nil:
+			return nil
+		}
+		panic(unsupported("freshLike of %T", v))
+	}
+	return rec(v, nm)
+}
+
+func likeElem(el Value, fn string, i *Term) Value {
+	switch x := el.(type) {
+	case *Term:
+		return App(fn, x.Sort, i)
+	case *StructV:
+		n := &StructV{Names: x.Names, F: map[string]Value{}}
+		for _, f := range x.Names {
+			n.F[f] = likeElem(x.F[f], fn+"."+f, i)
+		}
+		return n
+	case *IfaceV:
+		return &IfaceV{Tag: App(fn+".tag", SInt, i), Id: App(fn+".id", SInt, i), Payloads: map[string]Value{}}
+	}
+	return App(fn, SInt, i)
 }
